@@ -46,7 +46,11 @@ def realise(feat: Dict[str, bool], root: Path) -> List[str]:
            '    def meth(self):',
            '        """Method meth, see L{other}.',
            '',
-           '        More about L{attr}."""',
+           '        More about L{other}.',
+           '',
+           '        @return: The same as L{attr}.',
+           '        @see: L{attr}',
+           '        """',
            '    def other(self):',
            '        """Method other."""',
            '    attr: Hid = None',
@@ -78,6 +82,15 @@ def realise(feat: Dict[str, bool], root: Path) -> List[str]:
     mod += ['def func(x: Hid) -> Base:',
             '    """Function func, see L{Sub}%s."""' % (" and L{pk._impl.Moved}" if feat["move"] else "")]
     (pk / "mod.py").write_text("\n".join(mod) + "\n")
+    # import cycle: cyca is analysed first and imports cycb before CBase exists
+    (pk / "cyca.py").write_text(
+        '"""Module cyca."""\nfrom pk.cycb import Impl\n'
+        'class CBase:\n    """Class CBase."""\n    def run(self):\n        """Method run."""\n'
+        '    def keep(self):\n        """Method keep."""\n')
+    (pk / "cycb.py").write_text(
+        '"""Module cycb."""\nfrom pk.cyca import CBase\n'
+        'class Impl(CBase):\n    """Class Impl."""\n    def run(self):\n        """Overrides run."""\n'
+        'class Special(Impl):\n    """Class Special."""\n')
     srcs = [str(pk)]
     if feat["multi"]:
         (root / "m2.py").write_text(
@@ -117,8 +130,34 @@ STRUCTURAL_PRODS = [p for p in ALL_PRODS if p not in ("classSignature", "docstri
 THEMES = ["base", "classic", "readthedocs"]
 
 
-def enum_job(rec: Dict[str, Any], idx: int, scratch: Path, theme: str, tocdepth: int) -> Dict[str, Any]:
-    return {"kind": "enum", "name": "enum%d" % idx, "feat": rec["feat"], "nd": sorted(rec["nd"], key=lambda r: r["id"]),
+LEVELS = ("PUBLIC", "PRIVATE", "HIDDEN")
+
+
+def rules_for(nd: List[Dict[str, str]], rng: random.Random) -> List[str]:
+    """
+    The privacy assignment of a model as a --privacy rule list.  The rule that realises it is the LAST exact rule for the
+    name; the list may also hold an earlier exact rule with another level for the same name, and a pattern rule (matching
+    only that name) with another level anywhere - per the manual both are overridden.
+    """
+    groups = []
+    for r in nd:
+        others = [l for l in LEVELS if l != r["p"] and not (r["id"] == "pk" and l == "HIDDEN")]
+        g = []
+        if rng.random() < 0.5:
+            g.append("%s:%s" % (rng.choice(others), r["id"]))
+        g.append("%s:%s" % (r["p"], r["id"]))
+        if rng.random() < 0.3:
+            g.insert(rng.randint(0, len(g)), "%s:%s?" % (rng.choice(others), r["id"][:-1]))
+        groups.append(g)
+    rng.shuffle(groups)
+    return [x for g in groups for x in g]
+
+
+def enum_job(rec: Dict[str, Any], idx: int, scratch: Path, theme: str, tocdepth: int,
+             rng: Optional[random.Random] = None) -> Dict[str, Any]:
+    nd = sorted(rec["nd"], key=lambda r: r["id"])
+    return {"kind": "enum", "name": "enum%d" % idx, "feat": rec["feat"], "nd": nd,
+            "privacy": rules_for(nd, rng) if rng is not None else ["%s:%s" % (r["p"], r["id"]) for r in nd],
             "depth": rec["depth"], "theme": theme, "tocdepth": tocdepth,
             "root": str(scratch / ("proj%d" % idx)), "out": str(scratch / ("out%d" % idx))}
 
@@ -135,7 +174,7 @@ def run_job(job: Dict[str, Any]) -> Dict[str, Any]:
         if job["kind"] == "enum":
             shutil.rmtree(job["root"], ignore_errors=True)
             srcs = realise(job["feat"], Path(job["root"]))
-            privacy = ["%s:%s" % (r["p"], r["id"]) for r in job["nd"]]
+            privacy = job["privacy"]
             cwd: Optional[str] = job["root"]
         elif job.get("project"):
             shutil.rmtree(job["root"], ignore_errors=True)
@@ -189,6 +228,7 @@ def to_case(res: Dict[str, Any]) -> Dict[str, Any]:
         "kind": job["kind"], "name": job["name"],
         "feat": job.get("feat", {"dup": False, "move": False, "multi": False, "nested": False}),
         "nd": job.get("nd", []), "depth": proj["sidebardepth"], "roots": proj["roots"],
+        "rules": [{"p": r.split(":", 1)[0].upper(), "m": r.split(":", 1)[1]} for r in job.get("privacy", [])],
         "predict": bool(job.get("predict", True)),
         "modelled": (ALL_PRODS if enum else STRUCTURAL_PRODS) + ENTRY_KINDS,
         "objs": objs,
@@ -215,7 +255,10 @@ class View:
     """The object view O of Site.tla (ObsView) with the derived sets the invariants use."""
 
     def __init__(self, case: Dict[str, Any]):
-        self.o = case["objs"]
+        last_exact = {r["m"]: r["p"] for r in case.get("rules", [])}          # the manual: the LAST exact rule wins
+        self.o = {i: (dict(o, priv=last_exact[i]) if i in last_exact and o["name"] != "__main__" else o)
+                  for i, o in case["objs"].items()}
+        self.privacy_not_as_documented = sorted(i for i, o in case["objs"].items() if self.o[i]["priv"] != o["priv"])
         self.encfiles = set(case["site"].get("encfiles", ()))
         self.multi = len(set(case["roots"])) > 1
         self._hidden: Dict[str, bool] = {}
@@ -436,6 +479,9 @@ def witness(case: Dict[str, Any], job: Dict[str, Any], inv: str, inst: Tuple[Any
                       "target_hidden_root": f in v.hidden_root_files,
                       "member_doc_inherited": bool(member) and member in v.o and v.o[member]["docsrc"] != member,
                       "target_objects": sorted(i for i, o in v.o.items() if (o["file"], o["frag"]) == (f, g))[:4]})
+    if v.privacy_not_as_documented:       # objects whose System.privacyClass is not what the last exact rule says
+        facts["privacy_not_as_documented"] = [{"obj": i, "system": case["objs"][i]["priv"], "manual": v.o[i]["priv"]}
+                                              for i in v.privacy_not_as_documented[:5]]
     jb = {k: job[k] for k in job if k not in ("root", "out")}
     cls = inst[-1] if inv != "PrivateMarked" else "none"
     return {"invariant": inv, "instance": instance, "facts": facts, "job": jb, "class": cls,
@@ -554,6 +600,14 @@ def random_rules(rng: random.Random, ids: List[str], n: int, roots: Sequence[str
             rules.append("%s:%s.*" % (p, i.rsplit(".", 1)[0]))
         else:
             rules.append("%s:**.%s" % (p, i.rsplit(".", 1)[1]))
+    exact = [r for r in rules if "*" not in r]
+    if exact and rng.random() < 0.6:                # the same exact name twice, with different levels
+        p, m = rng.choice(exact).split(":", 1)
+        q = rng.choice([l for l in LEVELS if l != p])
+        if rng.random() < 0.5 and not (m in roots and len(roots) == 1 and p == "HIDDEN"):
+            rules.insert(rng.randint(0, rules.index("%s:%s" % (p, m))), "%s:%s" % (q, m))     # earlier: overridden
+        elif not (m in roots and len(roots) == 1 and q == "HIDDEN"):
+            rules.append("%s:%s" % (q, m))                                                     # later: wins
     return rules
 
 
@@ -615,7 +669,7 @@ def run_property(ctx: Ctx, prop: str) -> int:
         chosen = chosen[:budget // 2] + rng.sample(chosen[budget // 2:], budget - budget // 2)
     rest = [i for i in range(len(recs)) if i not in set(chosen)]
     chosen += rng.sample(rest, max(0, min(len(rest), budget - len(chosen))))
-    jobs = [enum_job(recs[i], i, ctx.scratch, THEMES[n % 3], rng.choice([0, 1, 6])) for n, i in enumerate(chosen)]
+    jobs = [enum_job(recs[i], i, ctx.scratch, THEMES[n % 3], rng.choice([0, 1, 6]), rng) for n, i in enumerate(chosen)]
 
     # ---- code -> spec: the repository's own packages under varying rules / themes / depths
     tp = testpackages_dir()
